@@ -327,12 +327,15 @@ class ClientSSM(SSM):
         self.invokeID = apdu.apduInvokeID
         if _debug: ClientSSM._debug("    - invoke ID: %r", self.invokeID)
 
-        # compute the segment count
-        if not apdu.pduData:
+        # compute the segment count, the limit applies to the whole APDU so
+        # leave room for the 4 octet header of an unsegmented request or the
+        # 6 octet header of a segment
+        if len(apdu.pduData) + 4 <= self.segmentSize:
             # always at least one segment
             self.segmentCount = 1
         else:
             # split into chunks, maybe need one more
+            self.segmentSize -= 6
             self.segmentCount, more = divmod(len(apdu.pduData), self.segmentSize)
             if more:
                 self.segmentCount += 1
@@ -814,12 +817,15 @@ class ServerSSM(SSM):
                 self.segmentSize = min(self.device_info.maxNpduLength, self.maxApduLengthAccepted)
             if _debug: ServerSSM._debug("    - segment size: %r", self.segmentSize)
 
-            # compute the segment count
-            if not apdu.pduData:
+            # compute the segment count, the limit applies to the whole APDU
+            # so leave room for the 3 octet header of an unsegmented ack or
+            # the 5 octet header of a segment
+            if len(apdu.pduData) + 3 <= self.segmentSize:
                 # always at least one segment
                 self.segmentCount = 1
             else:
                 # split into chunks, maybe need one more
+                self.segmentSize -= 5
                 self.segmentCount, more = divmod(len(apdu.pduData), self.segmentSize)
                 if more:
                     self.segmentCount += 1
